@@ -3,7 +3,7 @@
 Extracts (fail-closed, Python ast):
   * VAL_TYPE_TO_IND (resolving ValueType aliases), ARRAY_OFFSET, the shape of IND_TO_VALTYPE,
   * the struct formats behind SIZES (_binconv_basic/_binconv_cls calls and _struct_X = Struct(fmt)),
-  * parse_bin: the comparison operator of `if attr_type_data OP ARRAY_OFFSET`, the codec argument of every
+  * parse_bin: the comparison operator of `if <type byte local> OP ARRAY_OFFSET`, the codec argument of every
     read_nullstr/read_nullstr_array call (classified by site), what is read after the stub index -2,
   * export_binary: the type-code computation, the codec argument of every `.encode(..) + b'\\0'` write (by site),
     what is written after pack('<i', -2),
@@ -62,13 +62,357 @@ def _value_types(tree: ast.Module) -> dict[str, str]:
     _fail('class ValueType not found')
 
 
-def _func(tree: ast.Module, cls: str, name: str) -> ast.FunctionDef:
+def _raw_func(tree: ast.Module, cls: str, name: str) -> ast.FunctionDef:
     for n in tree.body:
         if isinstance(n, ast.ClassDef) and n.name == cls:
             for f in n.body:
                 if isinstance(f, ast.FunctionDef) and f.name == name:
                     return f
     _fail(f'{cls}.{name} not found')
+
+
+def _func(tree: ast.Module, cls: str, name: str) -> ast.FunctionDef:
+    """The method, normalised: calls of one-expression helper functions (nested in the method or at module level) are
+    replaced by the helper's expression, so that extracting or inlining such a helper does not change what is read."""
+    return _split_packed_writes(_loops_to_updates(_inline_struct_consts(_inline_helpers(_raw_func(tree, cls, name), tree), tree)))
+
+
+# ------------------------------------------------------------------------------------------------ normalisation
+def _strip_doc(body: list[ast.stmt]) -> list[ast.stmt]:
+    b = list(body)
+    if b and isinstance(b[0], ast.Expr) and isinstance(b[0].value, ast.Constant) and isinstance(b[0].value.value, str):
+        b = b[1:]
+    return b
+
+
+def _simple_helper(f: ast.FunctionDef):
+    """(parameter names, expression) of `def f(a, b): [doc] return EXPR` / `def f(a, b): [doc] EXPR`, else None."""
+    a = f.args
+    if a.vararg or a.kwarg or a.kwonlyargs or a.posonlyargs or a.defaults or f.decorator_list:
+        return None
+    b = _strip_doc(f.body)
+    if len(b) != 1:
+        return None
+    if isinstance(b[0], ast.Return) and b[0].value is not None:
+        expr = b[0].value
+    elif isinstance(b[0], ast.Expr):
+        expr = b[0].value
+    else:
+        return None
+    params = [x.arg for x in a.args]
+    for n in ast.walk(expr):      # no rebinding of a parameter inside the expression (lambda, comprehension, walrus)
+        if isinstance(n, ast.Name) and n.id in params and not isinstance(n.ctx, ast.Load):
+            return None
+        if isinstance(n, ast.arg) and n.arg in params:
+            return None
+        if isinstance(n, (ast.Yield, ast.YieldFrom, ast.Await)):
+            return None
+    return params, expr
+
+
+def _pure_arg(n: ast.AST) -> bool:
+    """Expressions that can be duplicated or dropped without changing behaviour: names, attribute / constant-subscript
+    chains of them, constants."""
+    if isinstance(n, (ast.Name, ast.Constant)):
+        return True
+    if isinstance(n, ast.Attribute):
+        return _pure_arg(n.value)
+    if isinstance(n, ast.Subscript):
+        return _pure_arg(n.value) and _pure_arg(n.slice)
+    return False
+
+
+def _inline_helpers(fn: ast.FunctionDef, tree: ast.Module) -> ast.FunctionDef:
+    import copy
+    fn = copy.deepcopy(fn)
+    helpers: dict = {}
+    local_defs = [st for st in fn.body if isinstance(st, ast.FunctionDef)]
+    for st in local_defs:
+        h = _simple_helper(st)
+        if h is not None:
+            helpers[st.name] = h
+    rebound = {n.id for n in ast.walk(fn) if isinstance(n, ast.Name) and not isinstance(n.ctx, ast.Load)} | \
+              {a.arg for a in ast.walk(fn) if isinstance(a, ast.arg)}
+    for n in tree.body:
+        if isinstance(n, ast.FunctionDef) and n.name not in helpers and n.name not in rebound \
+                and n.name not in {d.name for d in local_defs}:
+            h = _simple_helper(n)
+            if h is not None:
+                helpers[n.name] = h
+    helpers = {k: v for k, v in helpers.items() if k not in rebound}
+    if not helpers:
+        return fn
+
+    class Inline(ast.NodeTransformer):
+        def visit_FunctionDef(self, node):
+            if node is not fn and node.name in helpers:
+                return node                      # do not rewrite inside a helper itself
+            self.generic_visit(node)
+            return node
+
+        def visit_Call(self, c):
+            self.generic_visit(c)
+            if not (isinstance(c.func, ast.Name) and c.func.id in helpers):
+                return c
+            params, expr = helpers[c.func.id]
+            if any(isinstance(a, ast.Starred) for a in c.args) or any(k.arg is None for k in c.keywords):
+                return c
+            bind = dict(zip(params, c.args))
+            for k in c.keywords:
+                if k.arg in bind or k.arg not in params:
+                    return c
+                bind[k.arg] = k.value
+            if len(c.args) > len(params) or set(bind) != set(params):
+                return c
+            uses = {p_: sum(1 for n in ast.walk(expr) if isinstance(n, ast.Name) and n.id == p_) for p_ in params}
+            if not all(_pure_arg(bind[p_]) or uses[p_] == 1 for p_ in params):
+                return c
+
+            class Subst(ast.NodeTransformer):
+                def visit_Name(self, n):
+                    if n.id in bind and isinstance(n.ctx, ast.Load):
+                        return copy.deepcopy(bind[n.id])
+                    return n
+            new = Subst().visit(copy.deepcopy(expr))
+            return ast.copy_location(new, c)
+    fn = Inline().visit(fn)
+    # a nested helper nobody refers to any more disappears
+    still = {n.id for st in fn.body if not (isinstance(st, ast.FunctionDef) and st.name in helpers)
+             for n in ast.walk(st) if isinstance(n, ast.Name)}
+    fn.body = [st for st in fn.body if not (isinstance(st, ast.FunctionDef) and st.name in helpers and st.name not in still)]
+    ast.fix_missing_locations(fn)
+    return fn
+
+
+_FLIP = {ast.Lt: ast.Gt, ast.Gt: ast.Lt, ast.LtE: ast.GtE, ast.GtE: ast.LtE, ast.Eq: ast.Eq, ast.NotEq: ast.NotEq}
+
+
+def _is_const_operand(n: ast.AST) -> bool:
+    """A literal or a module constant by convention (UPPER_CASE name)."""
+    return isinstance(n, ast.Constant) or (isinstance(n, ast.Name) and n.id.isupper())
+
+
+def _normalise_module(tree: ast.Module) -> ast.Module:
+    """Spelling differences that do not change behaviour, removed once for everything that is read later:
+      * `(x,) = e` / `x, = e`  ->  `[x] = e`  (one-element unpacking target),
+      * `x: T = e` inside a function  ->  `x = e`  (annotations of locals are not evaluated),
+      * `CONST op x`  ->  `x op' CONST` for a single comparison with a literal / UPPER_CASE constant on the left and
+        something else on the right (operands are names, attributes or literals: evaluation order is irrelevant)."""
+    class Norm(ast.NodeTransformer):
+        depth = 0
+
+        def visit_FunctionDef(self, node):
+            self.depth += 1
+            self.generic_visit(node)
+            self.depth -= 1
+            return node
+
+        def visit_AnnAssign(self, node):
+            self.generic_visit(node)
+            if self.depth and node.value is not None and node.simple and isinstance(node.target, ast.Name):
+                return ast.copy_location(ast.Assign(targets=[node.target], value=node.value), node)
+            return node
+
+        def visit_Assign(self, node):
+            self.generic_visit(node)
+            node.targets = [ast.copy_location(ast.List(elts=t.elts, ctx=ast.Store()), t)
+                            if isinstance(t, ast.Tuple) and len(t.elts) == 1 and not isinstance(t.elts[0], ast.Starred) else t
+                            for t in node.targets]
+            return node
+
+        def visit_Compare(self, node):
+            self.generic_visit(node)
+            if len(node.ops) == 1 and type(node.ops[0]) in _FLIP and _is_const_operand(node.left) \
+                    and not _is_const_operand(node.comparators[0]) and _pure_arg(node.comparators[0]):
+                node.left, node.comparators = node.comparators[0], [node.left]
+                node.ops = [_FLIP[type(node.ops[0])]()]
+            return node
+    tree = Norm().visit(tree)
+    ast.fix_missing_locations(tree)
+    return tree
+
+
+def _module_structs(tree: ast.Module) -> dict:
+    """Module-level `NAME = Struct('<fmt>')` / `struct.Struct('<fmt>')` constants assigned exactly once."""
+    out: dict = {}
+    seen: dict = {}
+    for n in tree.body:
+        tgt = val = None
+        if isinstance(n, ast.Assign) and len(n.targets) == 1 and isinstance(n.targets[0], ast.Name):
+            tgt, val = n.targets[0].id, n.value
+        elif isinstance(n, ast.AnnAssign) and isinstance(n.target, ast.Name) and n.value is not None:
+            tgt, val = n.target.id, n.value
+        if tgt is None:
+            continue
+        seen[tgt] = seen.get(tgt, 0) + 1
+        if isinstance(val, ast.Call) and ast.unparse(val.func) in ('Struct', 'struct.Struct') and len(val.args) == 1 and not val.keywords \
+                and isinstance(val.args[0], ast.Constant) and isinstance(val.args[0].value, str):
+            out[tgt] = val.args[0].value
+    return {k: v for k, v in out.items() if seen[k] == 1}
+
+
+def _inline_struct_consts(fn: ast.FunctionDef, tree: ast.Module) -> ast.FunctionDef:
+    """Inside a method: `S.pack(a, ...)` with S a module-level `Struct(fmt)` constant and `struct.pack(fmt, a, ...)`
+    are read as `pack(fmt, a, ...)` (precompiled struct constants vs inline format strings)."""
+    structs = _module_structs(tree)
+    rebound = {n.id for n in ast.walk(fn) if isinstance(n, ast.Name) and not isinstance(n.ctx, ast.Load)} | \
+              {a.arg for a in ast.walk(fn) if isinstance(a, ast.arg)}
+
+    class S(ast.NodeTransformer):
+        def visit_Call(self, c):
+            self.generic_visit(c)
+            f = c.func
+            if isinstance(f, ast.Attribute) and f.attr == 'pack' and isinstance(f.value, ast.Name):
+                if f.value.id in structs and f.value.id not in rebound:
+                    return ast.copy_location(ast.Call(func=ast.Name(id='pack', ctx=ast.Load()),
+                                                      args=[ast.Constant(value=structs[f.value.id])] + c.args, keywords=c.keywords), c)
+                if f.value.id == 'struct' and 'struct' not in rebound:
+                    return ast.copy_location(ast.Call(func=ast.Name(id='pack', ctx=ast.Load()), args=c.args, keywords=c.keywords), c)
+            return c
+    fn = S().visit(fn)
+    ast.fix_missing_locations(fn)
+    return fn
+
+
+_STRUCTS: dict = {}        # module-level Struct constants of the tree being translated (set by translate())
+
+
+def _one_field_unpack(e: ast.AST) -> bool:
+    import struct as _st
+    if not (isinstance(e, ast.Call) and isinstance(e.func, ast.Attribute) and e.func.attr == 'unpack' and isinstance(e.func.value, ast.Name)
+            and e.func.value.id in _STRUCTS and len(e.args) == 1 and not e.keywords):
+        return False
+    try:
+        f = _STRUCTS[e.func.value.id]
+        return len(_st.unpack(f, bytes(_st.calcsize(f)))) == 1
+    except _st.error:
+        return False
+
+
+def _inline_single_use(stmts: list[ast.stmt], params: set) -> list[ast.stmt]:
+    """Straight-line code: `v = E` immediately followed by a simple statement that reads v exactly once (and nothing else
+    in the function reads or writes v) is read as that statement with E in place of v."""
+    import copy
+    stmts = list(stmts)
+    changed = True
+    while changed:
+        changed = False
+        for i in range(len(stmts) - 1):
+            a, b = stmts[i], stmts[i + 1]
+            if isinstance(a, ast.AnnAssign) and isinstance(a.target, ast.Name) and a.value is not None and a.simple:
+                v, e = a.target.id, a.value
+            elif isinstance(a, ast.Assign) and len(a.targets) == 1 and isinstance(a.targets[0], ast.List) and len(a.targets[0].elts) == 1 \
+                    and isinstance(a.targets[0].elts[0], ast.Name) and _one_field_unpack(a.value):
+                # `[v] = S.unpack(b)` with S a one-field module Struct: the same as `v = S.unpack(b)[0]`
+                v = a.targets[0].elts[0].id
+                e = ast.Subscript(value=a.value, slice=ast.Constant(value=0), ctx=ast.Load())
+            elif isinstance(a, ast.Assign) and len(a.targets) == 1 and isinstance(a.targets[0], ast.Name):
+                v, e = a.targets[0].id, a.value
+            else:
+                continue
+            if v in params or not isinstance(b, (ast.Return, ast.Assign, ast.Expr, ast.AugAssign, ast.AnnAssign)):
+                continue
+            occ = [n for st in stmts for n in ast.walk(st) if (isinstance(n, ast.Name) and n.id == v) or (isinstance(n, ast.arg) and n.arg == v)]
+            loads_b = [n for n in ast.walk(b) if isinstance(n, ast.Name) and n.id == v and isinstance(n.ctx, ast.Load)]
+            if len(occ) != 2 or len(loads_b) != 1:                     # the store in a, one load in b
+                continue
+            if any(isinstance(n, (ast.Lambda, ast.GeneratorExp, ast.ListComp, ast.SetComp, ast.DictComp, ast.FunctionDef)) for n in ast.walk(b)):
+                continue
+            if any(isinstance(n, (ast.Yield, ast.YieldFrom, ast.Await, ast.NamedExpr)) for n in ast.walk(e)):
+                continue
+
+            class Sub(ast.NodeTransformer):
+                def visit_Name(self, n):
+                    return copy.deepcopy(e) if n.id == v and isinstance(n.ctx, ast.Load) else n
+            nb = Sub().visit(copy.deepcopy(b))
+            ast.fix_missing_locations(nb)
+            stmts[i:i + 2] = [nb]
+            changed = True
+            break
+    return stmts
+
+
+def _terminates(stmts: list[ast.stmt]) -> bool:
+    return bool(stmts) and isinstance(stmts[-1], (ast.Return, ast.Raise, ast.Continue, ast.Break))
+
+
+def _flatten_returns(stmts: list[ast.stmt]) -> list[ast.stmt]:
+    """`if c: ...; return A` + `else: B`  ->  `if c: ...; return A` followed by B (also through elif chains): the
+    early-return form is the one that is read."""
+    import copy
+    out: list[ast.stmt] = []
+    for st in stmts:
+        if isinstance(st, ast.If):
+            st = copy.copy(st)
+            st.body = _flatten_returns(st.body)
+            st.orelse = _flatten_returns(st.orelse)
+            if st.orelse and _terminates(st.body):
+                tail, st.orelse = st.orelse, []
+                out.append(st)
+                out.extend(tail)
+                continue
+        out.append(st)
+    return out
+
+
+def _loops_to_updates(fn: ast.FunctionDef) -> ast.FunctionDef:
+    """`for x in IT: [if C:] S.add(E)`  ->  `S.update((E for x in IT [if C]))` (comprehension vs loop)."""
+    class L(ast.NodeTransformer):
+        def visit_For(self, node):
+            self.generic_visit(node)
+            if node.orelse or len(node.body) != 1 or not isinstance(node.target, ast.Name):
+                return node
+            st, conds = node.body[0], []
+            while isinstance(st, ast.If) and not st.orelse and len(st.body) == 1:
+                conds.append(st.test)
+                st = st.body[0]
+            if not (isinstance(st, ast.Expr) and isinstance(st.value, ast.Call) and isinstance(st.value.func, ast.Attribute)
+                    and st.value.func.attr == 'add' and isinstance(st.value.func.value, ast.Name) and len(st.value.args) == 1
+                    and not st.value.keywords and st.value.func.value.id != node.target.id):
+                return node
+            if any(isinstance(n, ast.Name) and n.id == st.value.func.value.id for c in conds + [node.iter, st.value.args[0]] for n in ast.walk(c)):
+                return node                       # the set is read while it is filled: not the same as one update
+            gen = ast.GeneratorExp(elt=st.value.args[0], generators=[ast.comprehension(target=node.target, iter=node.iter, ifs=conds, is_async=0)])
+            call = ast.Call(func=ast.Attribute(value=st.value.func.value, attr='update', ctx=ast.Load()), args=[gen], keywords=[])
+            return ast.copy_location(ast.Expr(value=call), node)
+    fn = L().visit(fn)
+    ast.fix_missing_locations(fn)
+    return fn
+
+
+def _split_packed_writes(fn: ast.FunctionDef) -> ast.FunctionDef:
+    """`file.write(pack(...) + REST)`  ->  `file.write(pack(...))`; `file.write(REST)` (one write of a concatenation whose
+    head is a packed number vs two writes; the operands are evaluated in the same order)."""
+    def is_pack(n):
+        return isinstance(n, ast.Call) and ast.unparse(n.func) == 'pack'
+
+    def operands(n):
+        return operands(n.left) + [n.right] if isinstance(n, ast.BinOp) and isinstance(n.op, ast.Add) else [n]
+
+    def split(st):
+        if not (isinstance(st, ast.Expr) and isinstance(st.value, ast.Call) and ast.unparse(st.value.func) == 'file.write'
+                and len(st.value.args) == 1 and not st.value.keywords):
+            return [st]
+        ops = operands(st.value.args[0])
+        if len(ops) < 2 or not is_pack(ops[0]):
+            return [st]
+        rest = ops[1]
+        for o in ops[2:]:
+            rest = ast.BinOp(left=rest, op=ast.Add(), right=o)
+        mk = lambda arg: ast.copy_location(ast.Expr(value=ast.Call(func=st.value.func, args=[arg], keywords=[])), st)
+        return [mk(ops[0])] + split(mk(rest))
+
+    class W(ast.NodeTransformer):
+        def generic_visit(self, node):
+            super().generic_visit(node)
+            for field in ('body', 'orelse', 'finalbody'):
+                b = getattr(node, field, None)
+                if isinstance(b, list) and b and isinstance(b[0], ast.stmt):
+                    setattr(node, field, [x for st in b for x in split(st)])
+            return node
+    fn = W().visit(fn)
+    ast.fix_missing_locations(fn)
+    return fn
 
 
 def _enc_arg(node: ast.AST | None, where) -> str:
@@ -89,39 +433,59 @@ def _parents(root: ast.AST) -> dict:
     return par
 
 
-def _encoding_assignment(fn: ast.FunctionDef, expect: str) -> None:
-    for n in ast.walk(fn):
-        if isinstance(n, ast.Assign) and ast.unparse(n.targets[0]) == 'encoding':
-            if ast.unparse(n.value) != expect:
-                _fail(f'{fn.name}: unrecognised `encoding = {ast.unparse(n.value)}`', n)
-            return
-    _fail(f'{fn.name}: no `encoding = ...` assignment')
+def _encoding_assignment(fn: ast.FunctionDef, kind: str) -> None:
+    """The single `encoding = <utf8 or ascii, by the unicode mode>` of a writer (kind 'modes': the three-valued parameter)
+    or of parse_bin (kind 'bool').  Only its shape is required here (read semantically: any spelling of the test,
+    either branch order); which codec each mode selects goes into gen_hdr (_header_cfg) and is an obligation there."""
+    enc = [n for n in ast.walk(fn) if isinstance(n, ast.Assign) and ast.unparse(n.targets[0]) == 'encoding']
+    if len(enc) != 1:
+        _fail(f'{fn.name}: expected exactly one `encoding = ...` assignment, found {len(enc)}')
+    if kind == 'modes':
+        _ifexp_modes(enc[0].value, UTF8, ASCII, enc[0])
+    else:
+        _ifexp_bool(enc[0].value, UTF8, ASCII, enc[0])
 
 
 # ------------------------------------------------------------------------------------------------ parse_bin
 def _parse_bin(fn: ast.FunctionDef) -> dict:
     out: dict = {'enc_read': {}}
-    _encoding_assignment(fn, "'utf8' if unicode else 'ascii'")
+    _encoding_assignment(fn, 'bool')
     par = _parents(fn)
     # the split test
+    # the local that holds the type byte, whatever it is called: `attr_type = IND_TO_VALTYPE[D]`, `[D] = struct_read('<B', file)`
+    dvars = [n.value.slice.id for n in ast.walk(fn) if isinstance(n, ast.Assign) and ast.unparse(n.targets[0]) == 'attr_type'
+             and isinstance(n.value, ast.Subscript) and ast.unparse(n.value.value) == 'IND_TO_VALTYPE' and isinstance(n.value.slice, ast.Name)]
+    if len(dvars) != 1:
+        _fail('parse_bin: `attr_type = IND_TO_VALTYPE[<local>]` not found exactly once')
+    dv = dvars[0]
+    if not any(isinstance(n, ast.Assign) and ast.unparse(n) == f"[{dv}] = binformat.struct_read('<B', file)" for n in ast.walk(fn)):
+        _fail(f"parse_bin: `[{dv}] = binformat.struct_read('<B', file)` not found")
     splits = [n for n in ast.walk(fn) if isinstance(n, ast.If) and isinstance(n.test, ast.Compare)
-              and 'attr_type_data' in ast.unparse(n.test)]
+              and any(isinstance(x, ast.Name) and x.id == dv for x in ast.walk(n.test))]
     if len(splits) != 1:
-        _fail(f'parse_bin: expected one test on attr_type_data, found {len(splits)}')
+        _fail(f'parse_bin: expected one test on {dv}, found {len(splits)}')
     sp = splits[0]
     t = sp.test
-    if not (isinstance(t.left, ast.Name) and t.left.id == 'attr_type_data' and len(t.ops) == 1
+    if not (isinstance(t.left, ast.Name) and t.left.id == dv and len(t.ops) == 1
             and isinstance(t.comparators[0], ast.Name) and t.comparators[0].id == 'ARRAY_OFFSET' and type(t.ops[0]) in CMP):
         _fail(f'parse_bin: unrecognised split test `{ast.unparse(t)}`', sp)
     out['split_cmp'] = CMP[type(t.ops[0])]
     out['split_line'] = sp.lineno
+    # the local that holds the array length (None for a scalar)
+    if not (len(sp.body) == 2 and isinstance(sp.body[1], ast.Assign) and len(sp.body[1].targets) == 1 and isinstance(sp.body[1].targets[0], ast.List)
+            and len(sp.body[1].targets[0].elts) == 1 and isinstance(sp.body[1].targets[0].elts[0], ast.Name)):
+        _fail(f'parse_bin: unrecognised array branch {[ast.unparse(s) for s in sp.body]}', sp)
+    av = sp.body[1].targets[0].elts[0].id
     body = [ast.unparse(s) for s in sp.body]
-    if body != ['attr_type_data -= ARRAY_OFFSET', "[array_size] = binformat.struct_read('<i', file)"]:
+    if body != [f'{dv} -= ARRAY_OFFSET', f"[{av}] = binformat.struct_read('<i', file)"]:
         _fail(f'parse_bin: unrecognised array branch {body}', sp)
-    if [ast.unparse(s) for s in sp.orelse] != ['array_size = None']:
+    if [ast.unparse(s) for s in sp.orelse] != [f'{av} = None']:
         _fail('parse_bin: unrecognised scalar branch', sp)
-    if not any(isinstance(n, ast.Assign) and ast.unparse(n) == 'attr_type = IND_TO_VALTYPE[attr_type_data]' for n in ast.walk(fn)):
-        _fail('parse_bin: `attr_type = IND_TO_VALTYPE[attr_type_data]` not found')
+    bare = {id(n.target) for n in ast.walk(fn) if isinstance(n, ast.AnnAssign) and n.value is None}
+    for var_ in (dv, av):           # each is written by its struct_read and once in the split, nowhere else
+        st_ = [n for n in ast.walk(fn) if isinstance(n, ast.Name) and n.id == var_ and not isinstance(n.ctx, ast.Load) and id(n) not in bare]
+        if len(st_) != 2 or dv == av:
+            _fail(f'parse_bin: the local `{var_}` is written {len(st_)} times, 2 expected', sp)
     # string read sites
     name_sites = ['SiteElName', 'SiteAttrName']
     stub_read = None
@@ -137,7 +501,7 @@ def _parse_bin(fn: ast.FunctionDef) -> dict:
                 _fail(f'parse_bin: unrecognised `{ast.unparse(c)}`', c)
             enc = _enc_arg(c.args[2] if len(c.args) == 3 else kw.get('encoding'), c)
             cnt = ast.unparse(c.args[1])
-            site = {'string_count': 'SiteTable', 'array_size': 'SiteArrayStr'}.get(cnt)
+            site = {'string_count': 'SiteTable', av: 'SiteArrayStr'}.get(cnt)
             if site is None:
                 _fail(f'parse_bin: unclassified string array read `{ast.unparse(c)}`', c)
         else:
@@ -175,15 +539,23 @@ def _parse_bin(fn: ast.FunctionDef) -> dict:
 # ------------------------------------------------------------------------------------------------ export_binary
 def _export_binary(fn: ast.FunctionDef) -> dict:
     out: dict = {'enc_write': {}}
-    _encoding_assignment(fn, "'utf8' if unicode != 'ascii' else 'ascii'")
+    _encoding_assignment(fn, 'modes')
     par = _parents(fn)
     src = [ast.unparse(n) for n in ast.walk(fn) if isinstance(n, ast.stmt)]
-    for need in ('typ_ind = VAL_TYPE_TO_IND[attr.type]', "file.write(pack('B', typ_ind))"):
-        if need not in src:
-            _fail(f'export_binary: `{need}` not found')
-    if not any(isinstance(n, ast.If) and ast.unparse(n.test) == 'attr.is_array'
-               and [ast.unparse(s) for s in n.body] == ['typ_ind += ARRAY_OFFSET'] for n in ast.walk(fn)):
-        _fail('export_binary: `if attr.is_array: typ_ind += ARRAY_OFFSET` not found')
+    # the local that holds the type code, whatever it is called: `T = VAL_TYPE_TO_IND[attr.type]`
+    tvars = [n.targets[0].id for n in ast.walk(fn) if isinstance(n, ast.Assign) and len(n.targets) == 1 and isinstance(n.targets[0], ast.Name)
+             and ast.unparse(n.value) == 'VAL_TYPE_TO_IND[attr.type]']
+    if len(tvars) != 1:
+        _fail('export_binary: `<local> = VAL_TYPE_TO_IND[attr.type]` not found exactly once')
+    tv = tvars[0]
+    stores = [n for n in ast.walk(fn) if isinstance(n, ast.Name) and n.id == tv and not isinstance(n.ctx, ast.Load)]
+    if len(stores) != 2:                       # the assignment and the `+= ARRAY_OFFSET`
+        _fail(f'export_binary: the type code local `{tv}` is written {len(stores)} times, 2 expected')
+    if f"file.write(pack('B', {tv}))" not in src:
+        _fail(f"export_binary: `file.write(pack('B', {tv}))` not found")
+    if not any(isinstance(n, ast.If) and ast.unparse(n.test) == 'attr.is_array' and not n.orelse
+               and [ast.unparse(s) for s in n.body] == [f'{tv} += ARRAY_OFFSET'] for n in ast.walk(fn)):
+        _fail(f'export_binary: `if attr.is_array: {tv} += ARRAY_OFFSET` not found')
 
     def enclosing_for(n):
         while n in par:
@@ -248,6 +620,414 @@ def _export_binary(fn: ast.FunctionDef) -> dict:
 
 
 
+# ------------------------------------------------------------------------------------------------ attribute count / member loops
+class _Lin:
+    """count = len * len(elem) + has * (KEY in elem._members) + const + kept * #(members not skipped by FILTER)."""
+    def __init__(self, ln=0, has=0, const=0, kept=0, has_key=None, kept_filter=None):
+        self.ln, self.has, self.const, self.kept, self.has_key, self.kept_filter = ln, has, const, kept, has_key, kept_filter
+
+    def _merge_keys(self, o, where):
+        hk = self.has_key if self.has_key is not None else o.has_key
+        if self.has_key is not None and o.has_key is not None and self.has_key != o.has_key:
+            _fail('attribute count: membership tests on two different keys', where)
+        kf = self.kept_filter if self.kept_filter is not None else o.kept_filter
+        if self.kept_filter is not None and o.kept_filter is not None and self.kept_filter != o.kept_filter:
+            _fail('attribute count: two different counting comprehensions', where)
+        return hk, kf
+
+    def add(self, o, sign, where):
+        hk, kf = self._merge_keys(o, where)
+        return _Lin(self.ln + sign * o.ln, self.has + sign * o.has, self.const + sign * o.const, self.kept + sign * o.kept, hk, kf)
+
+    def scale(self, k):
+        return _Lin(self.ln * k, self.has * k, self.const * k, self.kept * k, self.has_key, self.kept_filter)
+
+    def is_const(self):
+        return self.ln == 0 and self.has == 0 and self.kept == 0
+
+
+def _members_expr(node: ast.AST, elem: str) -> bool:
+    """Expressions whose keys / length are those of `elem._members`: elem, elem._members, elem.keys(), elem._members.keys()."""
+    src = ast.unparse(node)
+    return src in (elem, f'{elem}._members', f'{elem}.keys()', f'{elem}._members.keys()')
+
+
+def _has_test(node: ast.AST, elem: str, where):
+    """`'k' in elem._members` (or `in elem`: Mapping.__contains__ looks the casefolded name up, the same for a lower-case
+    literal) -> (key, negated) or None."""
+    if isinstance(node, ast.UnaryOp) and isinstance(node.op, ast.Not):
+        r = _has_test(node.operand, elem, where)
+        return None if r is None else (r[0], not r[1])
+    if isinstance(node, ast.Compare) and len(node.ops) == 1 and isinstance(node.ops[0], (ast.In, ast.NotIn)) \
+            and isinstance(node.left, ast.Constant) and isinstance(node.left.value, str) and _members_expr(node.comparators[0], elem):
+        key = node.left.value
+        if ast.unparse(node.comparators[0]) in (elem, f'{elem}.keys()') and key.casefold() != key:
+            _fail(f'attribute count: `{ast.unparse(node)}` looks a casefolded name up', where)
+        return key, isinstance(node.ops[0], ast.NotIn)
+    return None
+
+
+def _key_filter(test: ast.AST, key_var, attr_var, where, want_equal: bool = True):
+    """A skip test of a loop over the members: `K == 'c'` -> ('FKeyIs', c), `A.name == 'c'` -> ('FRealNameIs', c).
+    want_equal=False reads the keep test `K != 'c'`."""
+    if isinstance(test, ast.Compare) and len(test.ops) == 1 and isinstance(test.ops[0], (ast.Eq, ast.NotEq)):
+        l, r = test.left, test.comparators[0]
+        if isinstance(l, ast.Constant):
+            l, r = r, l
+        if isinstance(r, ast.Constant) and isinstance(r.value, str) and isinstance(test.ops[0], ast.Eq) == want_equal:
+            ls = ast.unparse(l)
+            if key_var is not None and ls == key_var:
+                return ('FKeyIs', r.value)
+            if attr_var is not None and ls == f'{attr_var}.name':
+                return ('FRealNameIs', r.value)
+    _fail(f'unrecognised test on a member `{ast.unparse(test)}`', where)
+
+
+def _count_comprehension(node: ast.AST, elem: str, where):
+    """sum(1 for k in elem._members if k != 'c') / len([k for k in elem._members if k != 'c']) /
+    sum(k != 'c' for k in elem._members) -> the filter of the members that are *not* counted, else None."""
+    if not (isinstance(node, ast.Call) and isinstance(node.func, ast.Name) and node.func.id in ('sum', 'len') and len(node.args) == 1
+            and not node.keywords and isinstance(node.args[0], (ast.GeneratorExp, ast.ListComp))):
+        return None
+    comp = node.args[0]
+    if len(comp.generators) != 1 or comp.generators[0].is_async:
+        _fail(f'attribute count: unrecognised comprehension `{ast.unparse(node)}`', where)
+    g = comp.generators[0]
+    key_var = attr_var = None
+    it = ast.unparse(g.iter)
+    if _members_expr(g.iter, elem) and isinstance(g.target, ast.Name):
+        key_var = g.target.id
+    elif it in (f'{elem}._members.items()', f'{elem}.items()') and isinstance(g.target, ast.Tuple) and len(g.target.elts) == 2 \
+            and all(isinstance(e, ast.Name) for e in g.target.elts):
+        key_var, attr_var = g.target.elts[0].id, g.target.elts[1].id
+    elif it in (f'{elem}._members.values()', f'{elem}.values()') and isinstance(g.target, ast.Name):
+        attr_var = g.target.id
+    else:
+        _fail(f'attribute count: unrecognised comprehension `{ast.unparse(node)}`', where)
+    if node.func.id == 'sum' and not g.ifs and isinstance(comp, ast.GeneratorExp):
+        return _key_filter(comp.elt, key_var, attr_var, where, want_equal=False)      # sum(k != 'c' for ...)
+    if node.func.id == 'sum' and not (isinstance(comp.elt, ast.Constant) and comp.elt.value == 1 and not isinstance(comp.elt.value, bool)):
+        _fail(f'attribute count: unrecognised comprehension `{ast.unparse(node)}`', where)
+    if not g.ifs:
+        return ('FNothing', None)
+    if len(g.ifs) != 1:
+        _fail(f'attribute count: unrecognised comprehension `{ast.unparse(node)}`', where)
+    return _key_filter(g.ifs[0], key_var, attr_var, where, want_equal=False)
+
+
+def _lin(node: ast.AST, env: dict, elem: str, where) -> _Lin:
+    if isinstance(node, ast.Constant) and isinstance(node.value, int) and not isinstance(node.value, bool):
+        return _Lin(const=node.value)
+    if isinstance(node, ast.Name) and node.id in env:
+        return env[node.id]
+    if isinstance(node, ast.Call) and isinstance(node.func, ast.Name) and node.func.id == 'len' and len(node.args) == 1 \
+            and not node.keywords and _members_expr(node.args[0], elem):
+        return _Lin(ln=1)
+    if isinstance(node, ast.Call) and ast.unparse(node.func) in (f'{elem}.__len__', f'{elem}._members.__len__') and not node.args and not node.keywords:
+        return _Lin(ln=1)
+    if isinstance(node, ast.Call) and isinstance(node.func, ast.Name) and node.func.id in ('int', 'bool') and len(node.args) == 1 and not node.keywords:
+        h = _has_test(node.args[0], elem, where)
+        if h is not None:
+            return _Lin(has=1, has_key=h[0]) if not h[1] else _Lin(has=-1, const=1, has_key=h[0])
+    h = _has_test(node, elem, where)
+    if h is not None:
+        return _Lin(has=1, has_key=h[0]) if not h[1] else _Lin(has=-1, const=1, has_key=h[0])
+    kf = _count_comprehension(node, elem, where)
+    if kf is not None:
+        return _Lin(ln=1) if kf[0] == 'FNothing' else _Lin(kept=1, kept_filter=kf)
+    if isinstance(node, ast.BinOp) and isinstance(node.op, (ast.Add, ast.Sub)):
+        return _lin(node.left, env, elem, where).add(_lin(node.right, env, elem, where), 1 if isinstance(node.op, ast.Add) else -1, where)
+    if isinstance(node, ast.BinOp) and isinstance(node.op, ast.Mult):
+        a, b = _lin(node.left, env, elem, where), _lin(node.right, env, elem, where)
+        if a.is_const():
+            return b.scale(a.const)
+        if b.is_const():
+            return a.scale(b.const)
+    if isinstance(node, ast.UnaryOp) and isinstance(node.op, ast.USub):
+        return _lin(node.operand, env, elem, where).scale(-1)
+    if isinstance(node, ast.IfExp):
+        h = _has_test(node.test, elem, where)
+        if h is not None:
+            return _lin_select(h, _lin(node.body, env, elem, where), _lin(node.orelse, env, elem, where), where)
+    _fail(f'attribute count: unrecognised expression `{ast.unparse(node)}`', where)
+
+
+def _lin_select(h, then: _Lin, other: _Lin, where) -> _Lin:
+    """The value `then` when the key is present, `other` when it is not, as one linear form (the indicator is 0 / 1)."""
+    key, neg = h
+    if neg:
+        then, other = other, then
+    for f in (then, other):
+        if f.has_key is not None and f.has_key != key:
+            _fail('attribute count: membership tests on two different keys', where)
+    if then.ln != other.ln or then.kept != other.kept:
+        _fail('attribute count: the branches differ by more than a constant', where)
+    _, kf = then._merge_keys(_Lin(kept_filter=other.kept_filter), where)
+    # then at has = 1, other at has = 0
+    return _Lin(other.ln, (then.const + then.has) - other.const, other.const, other.kept, key, kf)
+
+
+def _member_loop(loop: ast.For, elem: str, where):
+    """A `for` over the members of `elem`: (key variable, attribute variable, skip filter, statements of the kept part)."""
+    it = ast.unparse(loop.iter)
+    key_var = attr_var = None
+    if it in (f'{elem}._members.items()', f'{elem}.items()') and isinstance(loop.target, ast.Tuple) and len(loop.target.elts) == 2 \
+            and all(isinstance(e, ast.Name) for e in loop.target.elts):
+        key_var, attr_var = loop.target.elts[0].id, loop.target.elts[1].id
+    elif it in (f'{elem}._members.values()', f'{elem}.values()') and isinstance(loop.target, ast.Name):
+        attr_var = loop.target.id
+    elif _members_expr(loop.iter, elem) and isinstance(loop.target, ast.Name):
+        key_var = loop.target.id            # for K in elem._members: [A = elem._members[K]] ...
+    else:
+        _fail(f'export_binary: unrecognised loop over the members `for {ast.unparse(loop.target)} in {it}`', loop)
+    body = _strip_doc(loop.body)
+    if attr_var is None and body and isinstance(body[0], ast.Assign) and len(body[0].targets) == 1 and isinstance(body[0].targets[0], ast.Name) \
+            and ast.unparse(body[0].value) == f'{elem}._members[{key_var}]':
+        attr_var, body = body[0].targets[0].id, body[1:]
+    mentions = lambda n: any(isinstance(x, ast.Constant) and isinstance(x.value, str) for x in ast.walk(n))
+    first = body[0] if body else None
+    if isinstance(first, ast.If) and not first.orelse and len(first.body) >= 1 and isinstance(first.body[-1], ast.Continue) \
+            and all(isinstance(x, (ast.Continue, ast.Pass)) or (isinstance(x, ast.Expr) and isinstance(x.value, ast.Constant)) for x in first.body) \
+            and isinstance(first.test, ast.Compare) and mentions(first.test) \
+            and ast.unparse(first.test.left if not isinstance(first.test.left, ast.Constant) else first.test.comparators[0]) in (key_var, f'{attr_var}.name'):
+        _no_other_skip(body[1:], loop)
+        return key_var, attr_var, _key_filter(first.test, key_var, attr_var, first), body[1:]
+    if len(body) == 1 and isinstance(first, ast.If) and not first.orelse and isinstance(first.test, ast.Compare) and mentions(first.test) \
+            and ast.unparse(first.test.left if not isinstance(first.test.left, ast.Constant) else first.test.comparators[0]) in (key_var, f'{attr_var}.name'):
+        _no_other_skip(first.body, loop)
+        return key_var, attr_var, _key_filter(first.test, key_var, attr_var, first, want_equal=False), first.body
+    _no_other_skip(body, loop)
+    return key_var, attr_var, ('FNothing', None), body
+
+
+def _no_other_skip(stmts: list[ast.stmt], where) -> None:
+    """No `continue` / `break` of this loop outside the recognised skip test (a skip the model does not have)."""
+    def walk(n):
+        if isinstance(n, (ast.Continue, ast.Break)):
+            _fail('loop over the members: a `continue` / `break` that is not the recognised skip test', n)
+        if isinstance(n, (ast.For, ast.While, ast.FunctionDef, ast.Lambda)):
+            return
+        for ch in ast.iter_child_nodes(n):
+            walk(ch)
+    for st in stmts:
+        walk(st)
+
+
+def _attr_count(fn: ast.FunctionDef) -> dict:
+    """export_binary: the count written in front of an element's attribute records, and which members the collecting
+    loop and the record-writing loop skip."""
+    loops = [n for n in fn.body if isinstance(n, ast.For) and ast.unparse(n.iter) == 'elements' and isinstance(n.target, ast.Name)]
+    collect = [l for l in loops if any(isinstance(x, ast.Call) and ast.unparse(x.func) == 'elements.append' for x in ast.walk(l))]
+    def inner_loops(l):
+        return [x for x in l.body if isinstance(x, ast.For) and '_members' in ast.unparse(x.iter) or
+                (isinstance(x, ast.For) and ast.unparse(x.iter) in (f'{l.target.id}.values()', f'{l.target.id}.items()'))]
+    write = [l for l in loops if l not in collect and inner_loops(l)]
+    if len(collect) != 1 or len(write) != 1:
+        _fail(f'export_binary: expected one collecting and one attribute-writing loop over `elements`, found {len(collect)} / {len(write)}')
+    out: dict = {}
+    c, w = collect[0], write[0]
+    ci = inner_loops(c)
+    if len(ci) != 1:
+        _fail('export_binary: the collecting loop has no single loop over the members', c)
+    out['collect_filter'] = _member_loop(ci[0], c.target.id, c)[2]
+    wi = inner_loops(w)
+    if len(wi) != 1:
+        _fail('export_binary: the attribute-writing loop has no single loop over the members', w)
+    out['write_filter'] = _member_loop(wi[0], w.target.id, w)[2]
+    out['line'] = w.lineno
+    # straight-line code in front of the member loop: the count
+    elem = w.target.id
+    env: dict = {}
+    count = None
+    for st in w.body:
+        if st is wi[0]:
+            break
+        if isinstance(st, ast.Assign) and len(st.targets) == 1 and isinstance(st.targets[0], ast.Name):
+            env[st.targets[0].id] = _lin(st.value, env, elem, st)
+        elif isinstance(st, ast.AnnAssign) and isinstance(st.target, ast.Name) and st.value is not None:
+            env[st.target.id] = _lin(st.value, env, elem, st)
+        elif isinstance(st, ast.AugAssign) and isinstance(st.target, ast.Name) and st.target.id in env and isinstance(st.op, (ast.Add, ast.Sub)):
+            env[st.target.id] = env[st.target.id].add(_lin(st.value, env, elem, st), 1 if isinstance(st.op, ast.Add) else -1, st)
+        elif isinstance(st, ast.If) and _has_test(st.test, elem, st) is not None:
+            h = _has_test(st.test, elem, st)
+            envs = []
+            for branch in (st.body, st.orelse):
+                e2 = dict(env)
+                for b in branch:
+                    if isinstance(b, ast.AugAssign) and isinstance(b.target, ast.Name) and b.target.id in e2 and isinstance(b.op, (ast.Add, ast.Sub)):
+                        e2[b.target.id] = e2[b.target.id].add(_lin(b.value, e2, elem, b), 1 if isinstance(b.op, ast.Add) else -1, b)
+                    elif isinstance(b, ast.Assign) and len(b.targets) == 1 and isinstance(b.targets[0], ast.Name):
+                        e2[b.targets[0].id] = _lin(b.value, e2, elem, b)
+                    elif isinstance(b, ast.Pass):
+                        pass
+                    else:
+                        _fail(f'export_binary: unrecognised statement in the attribute count `{ast.unparse(b)}`', b)
+                envs.append(e2)
+            for k in set(envs[0]) | set(envs[1]):
+                if k not in envs[0] or k not in envs[1]:
+                    _fail(f'export_binary: `{k}` is assigned in one branch only', st)
+                env[k] = _lin_select(h, envs[0][k], envs[1][k], st)
+        elif isinstance(st, ast.Expr) and isinstance(st.value, ast.Call) and ast.unparse(st.value.func) == 'file.write':
+            a = st.value.args
+            if not (len(a) == 1 and isinstance(a[0], ast.Call) and ast.unparse(a[0].func) in ('pack', 'struct.pack') and len(a[0].args) == 2
+                    and isinstance(a[0].args[0], ast.Constant) and a[0].args[0].value == '<i' and count is None):
+                _fail(f'export_binary: unrecognised write in front of the attribute records `{ast.unparse(st)}`', st)
+            count = _lin(a[0].args[1], env, elem, st)
+        elif isinstance(st, ast.Expr) and isinstance(st.value, ast.Constant):
+            continue
+        else:
+            _fail(f'export_binary: unrecognised statement in front of the attribute records `{ast.unparse(st)}`', st)
+    if count is None:
+        _fail('export_binary: no attribute count is written in front of the attribute records', w)
+    if any(isinstance(x, ast.Call) and ast.unparse(x.func) == 'file.write' for st in w.body[w.body.index(wi[0]) + 1:] for x in ast.walk(st)):
+        _fail('export_binary: writes after the loop over the members', w)
+    out['count'] = count
+    return out
+
+
+def _name_getter(tree: ast.Module) -> dict:
+    """Element.name (the property getter): which member it reads and what it returns when the member is missing;
+    Element.__len__."""
+    getter = None
+    for n in tree.body:
+        if isinstance(n, ast.ClassDef) and n.name == 'Element':
+            for f in n.body:
+                if isinstance(f, ast.FunctionDef) and f.name == 'name' and any(ast.unparse(d) == 'property' for d in f.decorator_list):
+                    getter = f
+    if getter is None:
+        _fail('Element.name property not found')
+    keys = set()
+    for n in ast.walk(getter):
+        if isinstance(n, ast.Subscript) and ast.unparse(n.value) == 'self._members':
+            if not (isinstance(n.slice, ast.Constant) and isinstance(n.slice.value, str)):
+                _fail('Element.name: unrecognised member lookup', n)
+            keys.add(n.slice.value)
+        if isinstance(n, ast.Call) and ast.unparse(n.func) == 'self._members.get':
+            if not (n.args and isinstance(n.args[0], ast.Constant) and isinstance(n.args[0].value, str)):
+                _fail('Element.name: unrecognised member lookup', n)
+            keys.add(n.args[0].value)
+        if isinstance(n, ast.Compare) and any(ast.unparse(c_) == 'self._members' for c_ in n.comparators) and isinstance(n.left, ast.Constant):
+            keys.add(n.left.value)
+    rets = [n.value for n in ast.walk(getter) if isinstance(n, ast.Return)]
+    consts = [r.value for r in rets if isinstance(r, ast.Constant) and isinstance(r.value, str)]
+    others = [r for r in rets if not (isinstance(r, ast.Constant) and isinstance(r.value, str))]
+    if len(keys) != 1 or len(consts) != 1 or len(others) != 1 or not (isinstance(others[0], ast.Attribute) and others[0].attr in ('val_string', 'val_str')):
+        _fail(f'Element.name: unrecognised getter (member keys {sorted(keys)}, {len(rets)} returns)', getter)
+    ln = [ast.unparse(x) for x in _strip_doc(_raw_func(tree, 'Element', '__len__').body)]
+    return {'key': keys.pop(), 'default': consts[0], 'len_is_members': ln == ['return len(self._members)']}
+
+
+# ------------------------------------------------------------------------------------------------ readers: the key a record is stored under
+def _member_stores(fn: ast.FunctionDef, obj: str) -> list[dict]:
+    """Every `OBJ._members[KEY] = VALUE` of a reader: is KEY the casefolded attribute name or the name as written, and
+    is the name that is stored in the Attribute the same variable?"""
+    def single_assign(var):
+        v = [n for n in ast.walk(fn) if isinstance(n, ast.Assign) and len(n.targets) == 1 and isinstance(n.targets[0], ast.Name)
+             and n.targets[0].id == var]
+        stores = [n for n in ast.walk(fn) if isinstance(n, ast.Name) and n.id == var and not isinstance(n.ctx, ast.Load)]
+        return v[0].value if len(v) == 1 and len(stores) == 1 else None
+
+    def key_of(k, depth=0):
+        if isinstance(k, ast.Call) and isinstance(k.func, ast.Attribute) and k.func.attr == 'casefold' and not k.args and not k.keywords \
+                and isinstance(k.func.value, ast.Name):
+            return 'KFolded', k.func.value.id
+        if isinstance(k, ast.Name):
+            e = single_assign(k.id) if depth == 0 else None      # key = name.casefold(); elem._members[key] = ...
+            if e is not None and isinstance(e, ast.Call) and isinstance(e.func, ast.Attribute) and e.func.attr == 'casefold':
+                return key_of(e, depth + 1)
+            return 'KAsWritten', k.id
+        _fail(f'{fn.name}: unrecognised key `{ast.unparse(k)}` of a member store', k)
+
+    def attr_ctor_name(call):
+        """first argument of Attribute(...) / Attribute.<classmethod>(...)"""
+        if isinstance(call, ast.Call) and ast.unparse(call.func).split('.')[0] == 'Attribute' and call.args and isinstance(call.args[0], ast.Name):
+            return call.args[0].id
+        return None
+    out = []
+    for n in ast.walk(fn):
+        if not (isinstance(n, ast.Assign) and len(n.targets) == 1 and isinstance(n.targets[0], ast.Subscript)
+                and ast.unparse(n.targets[0].value) == f'{obj}._members'):
+            continue
+        fn_kind, name_var = key_of(n.targets[0].slice)
+        if isinstance(n.value, ast.Name):
+            kind = 'attr'
+            made = [attr_ctor_name(a.value) for a in ast.walk(fn) if isinstance(a, ast.Assign) and len(a.targets) == 1
+                    and isinstance(a.targets[0], ast.Name) and a.targets[0].id == n.value.id and isinstance(a.value, ast.Call)
+                    and ast.unparse(a.value.func).split('.')[0] == 'Attribute']
+            if not made or any(m != name_var for m in made):
+                _fail(f'{fn.name}: `{ast.unparse(n)}`: the attribute stored is not always built as Attribute({name_var}, ...)', n)
+        elif attr_ctor_name(n.value) is not None:
+            kind = 'inline'
+            if attr_ctor_name(n.value) != name_var:
+                _fail(f'{fn.name}: `{ast.unparse(n.targets[0])}`: key and attribute name come from different variables', n)
+        else:
+            _fail(f'{fn.name}: unrecognised member store `{ast.unparse(n)}`', n)
+        out.append({'kind': kind, 'key': fn_kind, 'line': n.lineno})
+    return out
+
+
+def _parse_keys(tree: ast.Module) -> dict:
+    def agree(stores, kind, where):
+        ks = {s_['key'] for s_ in stores if s_['kind'] == kind}
+        if not ks:
+            _fail(f'{where}: no `elem._members[...] = ...` store of kind {kind}')
+        return 'KAsWritten' if 'KAsWritten' in ks else 'KFolded', min(s_['line'] for s_ in stores if s_['kind'] == kind)
+    pb = _member_stores(_func(tree, 'Element', 'parse_bin'), 'elem')
+    if any(s_['kind'] != 'attr' for s_ in pb):
+        _fail('parse_bin: unrecognised member store')
+    k2 = _member_stores(_func(tree, 'Element', '_parse_kv2_element'), 'elem')
+    out = {'bin': agree(pb, 'attr', 'parse_bin'), 'kv2_attr': agree(k2, 'attr', '_parse_kv2_element'),
+           'kv2_inline': agree(k2, 'inline', '_parse_kv2_element')}
+    # Element.__init__: self._members = {KEY: Attribute(NAME, ValueType.STRING, name)}
+    init = _raw_func(tree, 'Element', '__init__')
+    params = [a.arg for a in init.args.args]
+    st = [n for n in ast.walk(init) if isinstance(n, ast.Assign) and len(n.targets) == 1 and ast.unparse(n.targets[0]) == 'self._members']
+    if not (len(st) == 1 and isinstance(st[0].value, ast.Dict) and len(st[0].value.keys) == 1 and isinstance(st[0].value.keys[0], ast.Constant)
+            and isinstance(st[0].value.keys[0].value, str)):
+        _fail('Element.__init__: `self._members = {KEY: Attribute(...)}` with one literal key expected', init)
+    v = st[0].value.values[0]
+    if not (isinstance(v, ast.Call) and ast.unparse(v.func) == 'Attribute' and len(v.args) == 3 and not v.keywords
+            and isinstance(v.args[0], ast.Constant) and isinstance(v.args[0].value, str) and ast.unparse(v.args[1]) == 'ValueType.STRING'
+            and isinstance(v.args[2], ast.Name) and len(params) >= 2 and v.args[2].id == params[1]):
+        _fail(f'Element.__init__: unrecognised initial member `{ast.unparse(v)}`', init)
+    out['init_key'], out['init_name'] = st[0].value.keys[0].value, v.args[0].value
+    return out
+
+
+# ------------------------------------------------------------------------------------------------ KV2 at the level of the dict
+def _kv2_members(tree: ast.Module) -> dict:
+    """_export_kv2: the skip test of its loop over the members and the name line; _parse_kv2_element: the test that sends a
+    record to the name setter."""
+    w = _func(tree, 'Element', '_export_kv2')
+    loops = [n for n in w.body if isinstance(n, ast.For) and ast.unparse(n.iter) in ('self.values()', 'self._members.values()', 'self.items()', 'self._members.items()')]
+    if len(loops) != 1:
+        _fail(f'_export_kv2: expected one loop over the members of self, found {len(loops)}', w)
+    skip = _member_loop(loops[0], 'self', loops[0])[2]
+    lines = [n for n in ast.walk(w) if isinstance(n, ast.Constant) and isinstance(n.value, bytes) and b'"name" "string"' in n.value]
+    if len(lines) != 1 or lines[0].value != b'%b"name" "string" "%b"\r\n':
+        _fail('_export_kv2: the line `"name" "string" "<Element.name>"` is not written exactly once', w)
+    r = _func(tree, 'Element', '_parse_kv2_element')
+    blocks = [n for n in ast.walk(r) if isinstance(n, ast.For) and isinstance(n.target, ast.Name) and ast.unparse(n.iter).startswith('tok.block(')]
+    if len(blocks) != 1:
+        _fail('_parse_kv2_element: expected one `for attr_name in tok.block(...)`', r)
+    nv = blocks[0].target.id
+    tests = [n for n in ast.walk(blocks[0]) if isinstance(n, ast.If)
+             and any(isinstance(x, ast.Assign) and ast.unparse(x.targets[0]) == 'elem.name' for x in n.body)]
+    if len(tests) != 1:
+        _fail('_parse_kv2_element: expected one branch that assigns elem.name', r)
+    tsrc = ast.unparse(tests[0].test)
+    if tsrc == f"{nv} == 'name'":
+        test = 'TExact'
+    elif tsrc == f"{nv}.casefold() == 'name'":
+        test = 'TFolded'
+    else:
+        _fail(f'_parse_kv2_element: unrecognised test in front of the name setter `{tsrc}`', tests[0])
+    setter = [x for x in tests[0].body if isinstance(x, ast.Assign) and ast.unparse(x.targets[0]) == 'elem.name']
+    if len(setter) != 1 or ast.unparse(setter[0].value) != 'tok.expect(Token.STRING)' or not isinstance(tests[0].body[-1], ast.Continue):
+        _fail('_parse_kv2_element: the name branch is not `elem.name = tok.expect(Token.STRING); continue`', tests[0])
+    return {'skip': skip, 'name_test': test, 'line': loops[0].lineno}
+
+
 # ------------------------------------------------------------------------------------------------ scalar codecs
 def _top_func(tree: ast.Module, name: str) -> ast.FunctionDef:
     for n in tree.body:
@@ -257,11 +1037,11 @@ def _top_func(tree: ast.Module, name: str) -> ast.FunctionDef:
 
 
 def _body(fn: ast.FunctionDef) -> list[ast.stmt]:
-    """Statements of a function without its docstring."""
+    """Statements of a function without its docstring; single-use locals inlined, `else` after a returning branch hoisted."""
     b = list(fn.body)
     if b and isinstance(b[0], ast.Expr) and isinstance(b[0].value, ast.Constant) and isinstance(b[0].value.value, str):
         b = b[1:]
-    return b
+    return _flatten_returns(_inline_single_use(b, {a.arg for a in ast.walk(fn.args) if isinstance(a, ast.arg)}))
 
 
 def _binconv_shapes(tree: ast.Module) -> None:
@@ -320,12 +1100,13 @@ def _time_codec(tree: ast.Module) -> dict:
     r = _top_func(tree, '_conv_binary_to_time')
     rb = _body(r)
     rarg = r.args.args[0].arg if len(r.args.args) == 1 else _fail('_conv_binary_to_time: one parameter expected', r)
-    if not (len(rb) == 2 and ast.unparse(rb[0]) == f'[num] = _struct_time.unpack({rarg})' and isinstance(rb[1], ast.Return)
-            and isinstance(rb[1].value, ast.Call) and ast.unparse(rb[1].value.func) == 'Time' and len(rb[1].value.args) == 1
-            and not rb[1].value.keywords and isinstance(rb[1].value.args[0], ast.BinOp)
-            and isinstance(rb[1].value.args[0].op, ast.Div) and ast.unparse(rb[1].value.args[0].left) == 'num'):
+    # (the one-element unpacking `[num] = _struct_time.unpack(byt)` is read as `_struct_time.unpack(byt)[0]` by _body)
+    if not (len(rb) == 1 and isinstance(rb[0], ast.Return)
+            and isinstance(rb[0].value, ast.Call) and ast.unparse(rb[0].value.func) == 'Time' and len(rb[0].value.args) == 1
+            and not rb[0].value.keywords and isinstance(rb[0].value.args[0], ast.BinOp)
+            and isinstance(rb[0].value.args[0].op, ast.Div) and ast.unparse(rb[0].value.args[0].left) == f'_struct_time.unpack({rarg})[0]'):
         _fail('_conv_binary_to_time: `[num] = _struct_time.unpack(byt); return Time(num / C)` expected', r)
-    div = _int_valued_float(rb[1].value.args[0].right, r)
+    div = _int_valued_float(rb[0].value.args[0].right, r)
     return {'round': ROUNDERS[ast.unparse(inner.func)], 'mul': mul, 'div': div, 'line': w.lineno}
 
 
@@ -591,11 +1372,11 @@ def _value_text(tree: ast.Module) -> dict:
     r = _top_func(tree, '_conv_string_to_color')
     rarg = r.args.args[0].arg
     rb = _body(r)
-    if not (len(rb) == 2 and ast.unparse(rb[0]) == f'parts = {rarg}.split()' and isinstance(rb[1], ast.If)):
-        _fail('_conv_string_to_color: unrecognised frame', r)
+    if not (len(rb) >= 3 and ast.unparse(rb[0]) == f'parts = {rarg}.split()' and all(isinstance(x, ast.If) and not x.orelse for x in rb[1:-1])
+            and isinstance(rb[-1], ast.Raise)):
+        _fail('_conv_string_to_color: unrecognised frame (parts = text.split(); returning branches on len(parts); raise)', r)
     reads = []
-    node = rb[1]
-    while True:
+    for node in rb[1:-1]:
         mm = re.fullmatch(r'len\(parts\) == (\d+)', ast.unparse(node.test))
         if mm is None or len(node.body) != 1 or not isinstance(node.body[0], ast.Return):
             _fail(f'_conv_string_to_color: unrecognised branch `{ast.unparse(node.test)}`', node)
@@ -612,12 +1393,6 @@ def _value_text(tree: ast.Module) -> dict:
             else:
                 _fail(f'_conv_string_to_color: unrecognised argument `{ast.unparse(a)}`', node)
         reads.append((int(mm.group(1)), args))
-        if len(node.orelse) == 1 and isinstance(node.orelse[0], ast.If):
-            node = node.orelse[0]
-            continue
-        if not (len(node.orelse) == 1 and isinstance(node.orelse[0], ast.Raise)):
-            _fail('_conv_string_to_color: the last branch must raise', node)
-        break
     out['color_read'] = reads
     # binary blobs
     w = _top_func(tree, '_conv_binary_to_string')
@@ -753,8 +1528,10 @@ def _kv2_tokenizer_kwargs(fn: ast.FunctionDef) -> list[tuple[str, bool]]:
     if len(calls) != 1:
         _fail(f'parse_kv2: expected one Tokenizer(...) call, found {len(calls)}')
     c = calls[0]
-    if [ast.unparse(a) for a in c.args] != ['file']:
+    # Tokenizer(data, filename=None, error=..., *, <options>): the file name only labels error messages
+    if not c.args or ast.unparse(c.args[0]) != 'file' or len(c.args) > 2 or (len(c.args) == 2 and not _pure_arg(c.args[1])):
         _fail(f'parse_kv2: unrecognised `{ast.unparse(c)}`', c)
+    c.keywords = [k for k in c.keywords if not (k.arg == 'filename' and len(c.args) == 1 and _pure_arg(k.value))]
     out = []
     known = {'string_bracket', 'string_parens', 'allow_escapes', 'allow_star_comments', 'preserve_comments',
              'colon_operator', 'plus_operator'}
@@ -839,16 +1616,93 @@ def _const_str(tree: ast.Module, name: str) -> str:
     _fail(f'string constant {name} not found')
 
 
+def _str_collection(node: ast.AST, tree: ast.Module, fn: ast.FunctionDef, depth: int = 0):
+    """A literal collection of strings ({..}, (..), [..], frozenset(..), set(..)), possibly behind a constant that is
+    assigned exactly once at module level or in the function -> list of the strings, else None."""
+    if isinstance(node, (ast.Set, ast.Tuple, ast.List)):
+        if all(isinstance(e, ast.Constant) and isinstance(e.value, str) for e in node.elts):
+            return [e.value for e in node.elts]
+        return None
+    if isinstance(node, ast.Call) and isinstance(node.func, ast.Name) and node.func.id in ('frozenset', 'set', 'tuple') \
+            and len(node.args) == 1 and not node.keywords:
+        return _str_collection(node.args[0], tree, fn, depth)
+    if isinstance(node, ast.Name) and depth < 3:
+        defs = []
+        for scope in (tree.body, list(ast.walk(fn))):
+            for n in scope:
+                if isinstance(n, ast.Assign) and any(isinstance(t, ast.Name) and t.id == node.id for t in n.targets):
+                    defs.append(n.value)
+                elif isinstance(n, ast.AnnAssign) and isinstance(n.target, ast.Name) and n.target.id == node.id and n.value is not None:
+                    defs.append(n.value)
+                elif isinstance(n, (ast.AugAssign,)) and isinstance(n.target, ast.Name) and n.target.id == node.id:
+                    return None
+        if len(defs) == 1:
+            return _str_collection(defs[0], tree, fn, depth + 1)
+    return None
+
+
+def _name_sel(node: ast.AST, var: str, where) -> str:
+    """Which of the two names of the Keyvalues `var` an expression reads: .name (casefolded) / .real_name (as written)."""
+    src = ast.unparse(node)
+    if src in (f'{var}.name', f'{var}.name.casefold()', f'{var}.real_name.casefold()'):
+        return 'NFolded'
+    if src == f'{var}.real_name':
+        return 'NReal'
+    _fail(f'from_kv1: unrecognised name expression `{src}`', where)
+
+
+def _if_chain(stmts: list[ast.stmt]):
+    """Statements of a loop body as a decision chain [(test, body)], else-body: `if c: ...; continue` followed by the
+    rest is `if c: ... else: rest`; elif chains are followed."""
+    stmts = _strip_doc(stmts)
+    if not stmts:
+        return [], []
+    st = stmts[0]
+    if isinstance(st, ast.If):
+        ends = bool(st.body) and isinstance(st.body[-1], (ast.Continue, ast.Return, ast.Raise, ast.Break))
+        if not st.orelse and ends:
+            rest_chain, rest_else = _if_chain(stmts[1:])
+            return [(st.test, st.body)] + rest_chain, rest_else
+        if len(stmts) == 1:
+            if st.orelse:
+                rest_chain, rest_else = _if_chain(st.orelse)
+                return [(st.test, st.body)] + rest_chain, rest_else
+            return [(st.test, st.body)], []
+    return [], stmts
+
+
 def _kv1(tree: ast.Module) -> dict:
     fk, tk = _func(tree, 'Element', 'from_kv1'), _func(tree, 'Element', 'to_kv1')
     out = {'t_block': _const_str(tree, 'NAME_KV1'), 't_leaf': _const_str(tree, 'NAME_KV1_LEAF'),
            't_root': _const_str(tree, 'NAME_KV1_ROOT'), 'from_digest': ast_digest(fk), 'to_digest': ast_digest(tk)}
-    # reserved names: `child.name in {...}`
-    res = [n for n in ast.walk(fk) if isinstance(n, ast.Compare) and ast.unparse(n.left) == 'child.name'
-           and len(n.ops) == 1 and isinstance(n.ops[0], ast.In) and isinstance(n.comparators[0], ast.Set)]
-    if len(res) != 1 or not all(isinstance(e, ast.Constant) and isinstance(e.value, str) for e in res[0].comparators[0].elts):
-        _fail('from_kv1: reserved-name test `child.name in {...}` not recognised')
-    out['reserved'] = sorted(e.value for e in res[0].comparators[0].elts)
+    # the two tests of the scanning loop: `<name of child> in <literal collection>` (reserved names) and
+    # `<name of child> in <set built with .add(<name of child>)>` (duplicate leaf names)
+    ins = [n for n in ast.walk(fk) if isinstance(n, ast.Compare) and len(n.ops) == 1 and isinstance(n.ops[0], ast.In)
+           and ast.unparse(n.left).startswith('child.')]
+    res, dup = [], []
+    for n in ins:
+        coll = _str_collection(n.comparators[0], tree, fk)
+        if coll is not None:
+            res.append((n, coll))
+        elif isinstance(n.comparators[0], ast.Name):
+            dup.append(n)
+        else:
+            _fail(f'from_kv1: unrecognised membership test `{ast.unparse(n)}`', n)
+    if len(res) != 1 or len(dup) != 1:
+        _fail(f'from_kv1: expected one reserved-name test and one duplicate-name test, found {len(res)} / {len(dup)}')
+    out['reserved'] = sorted(res[0][1])
+    out['reserved_sel'] = _name_sel(res[0][0].left, 'child', res[0][0])
+    out['reserved_line'] = res[0][0].lineno
+    dset = dup[0].comparators[0].id
+    adds = [n for n in ast.walk(fk) if isinstance(n, ast.Call) and ast.unparse(n.func) == f'{dset}.add' and len(n.args) == 1]
+    others = [n for n in ast.walk(fk) if isinstance(n, ast.Call) and isinstance(n.func, ast.Attribute) and ast.unparse(n.func.value) == dset
+              and n.func.attr != 'add']
+    if len(adds) != 1 or others:
+        _fail(f'from_kv1: the set `{dset}` of leaf names is not filled by exactly one .add(...)')
+    sel_in, sel_add = _name_sel(dup[0].left, 'child', dup[0]), _name_sel(adds[0].args[0], 'child', adds[0])
+    if sel_in != sel_add:
+        _fail('from_kv1: the duplicate test and the set of seen names use different names of the leaf', dup[0])
+    out['dup_sel'] = sel_in
     # keys written by from_kv1: elem['value'] = ..., elem['subkeys'] = ...
     written = [n.targets[0].slice.value for n in ast.walk(fk) if isinstance(n, ast.Assign)
                and isinstance(n.targets[0], ast.Subscript) and ast.unparse(n.targets[0].value) == 'elem'
@@ -856,17 +1710,44 @@ def _kv1(tree: ast.Module) -> dict:
     if sorted(written) != ['subkeys', 'value']:
         _fail(f'from_kv1: literal keys written {written}')
     out['k_value_w'], out['k_subkeys_w'] = 'value', 'subkeys'
-    # keys read by to_kv1: self['value'], attr.name == 'subkeys', attr.name == 'name'
+    # keys read by to_kv1: self['value'], and the decision chain over attr.name in the attribute loop
     rd = [n.slice.value for n in ast.walk(tk) if isinstance(n, ast.Subscript) and ast.unparse(n.value) == 'self'
           and isinstance(n.slice, ast.Constant)]
     if rd != ['value']:
         _fail(f'to_kv1: literal keys read {rd}')
     out['k_value_r'] = rd[0]
-    tests = [n.comparators[0].value for n in ast.walk(tk) if isinstance(n, ast.Compare) and ast.unparse(n.left) == 'attr.name'
-             and len(n.ops) == 1 and isinstance(n.ops[0], ast.Eq) and isinstance(n.comparators[0], ast.Constant)]
-    if tests != ['subkeys', 'name']:
-        _fail(f'to_kv1: attribute name tests {tests}')
-    out['k_subkeys_r'], out['k_name_r'] = tests
+    loops = [n for n in ast.walk(tk) if isinstance(n, ast.For) and isinstance(n.target, ast.Name)
+             and ast.unparse(n.iter) in ('self.values()', 'self._members.values()')]
+    if len(loops) != 1:
+        _fail(f'to_kv1: expected one loop over the attributes, found {len(loops)}')
+    var = loops[0].target.id
+    chain, other = _if_chain(loops[0].body)
+    roles: dict = {}
+    for test, body in chain:
+        if not (isinstance(test, ast.Compare) and len(test.ops) == 1 and isinstance(test.ops[0], ast.Eq)):
+            _fail(f'to_kv1: unrecognised test `{ast.unparse(test)}`', test)
+        l, r = test.left, test.comparators[0]
+        if isinstance(l, ast.Constant):
+            l, r = r, l
+        if not (ast.unparse(l) == f'{var}.name' and isinstance(r, ast.Constant) and isinstance(r.value, str)):
+            _fail(f'to_kv1: unrecognised test `{ast.unparse(test)}`', test)
+        stm = [x for x in body if not (isinstance(x, ast.Expr) and isinstance(x.value, ast.Constant))]
+        if all(isinstance(x, (ast.Continue, ast.Pass)) for x in stm):
+            role = 'name'                       # the attribute is skipped
+        elif any(isinstance(x, ast.Assign) and ast.unparse(x) == f'subkeys = {var}' for x in stm) \
+                and all(isinstance(x, (ast.Continue, ast.If)) or ast.unparse(x) == f'subkeys = {var}' for x in stm) \
+                and all(all(isinstance(y, ast.Raise) for y in x.body) and not x.orelse for x in stm if isinstance(x, ast.If)):
+            role = 'subkeys'                    # validated and remembered
+        else:
+            _fail(f'to_kv1: unrecognised branch for `{ast.unparse(test)}`', test)
+        if role in roles or r.value in roles.values():
+            _fail(f'to_kv1: two branches with the role {role} / the constant {r.value!r}', test)
+        roles[role] = r.value
+    if set(roles) != {'name', 'subkeys'}:
+        _fail(f'to_kv1: attribute name tests found for {sorted(roles)}')
+    if [ast.unparse(x) for x in other] != [f'kv.append(Keyvalues({var}.name, {var}.val_str))']:
+        _fail(f'to_kv1: unrecognised leaf branch {[ast.unparse(x) for x in other]}')
+    out['k_subkeys_r'], out['k_name_r'] = roles['subkeys'], roles['name']
     return out
 
 
@@ -876,7 +1757,9 @@ def _coq_str(s: str) -> str:
 
 
 def translate() -> tuple[str, dict]:
-    tree = ast.parse(src_text('dmx.py'))
+    tree = _normalise_module(ast.parse(src_text('dmx.py')))
+    _STRUCTS.clear()
+    _STRUCTS.update(_module_structs(tree))
     vts = _value_types(tree)
     side: dict = {}
     # VAL_TYPE_TO_IND / ARRAY_OFFSET / IND_TO_VALTYPE
@@ -956,6 +1839,10 @@ def translate() -> tuple[str, dict]:
     kv2_kw_roots, kv2_kw_roots_line = _kv2_keyword_roots(tree, _func(tree, 'Element', 'export_kv2'))
     kv2_stub, kv2_stub_line = _kv2_stubs([_func(tree, 'Element', 'parse_kv2'), _func(tree, 'Element', '_parse_kv2_element')])
     kv1 = _kv1(tree)
+    cnt = _attr_count(_func(tree, 'Element', 'export_binary'))
+    ngt = _name_getter(tree)
+    pkeys = _parse_keys(tree)
+    kv2m = _kv2_members(tree)
     # scalar codecs
     _binconv_shapes(tree)
     tcodec = _time_codec(tree)
@@ -984,8 +1871,17 @@ def translate() -> tuple[str, dict]:
                 enc_read_lines={k: v[1] for k, v in pb['enc_read'].items()},
                 formats=fmt_rows, time_codec=tcodec, matrix_codec=mcodec, ctor=ctor_rows,
                 value_text=vtext, header=hdr, kv2_fields=kv2, kv2_ref_tables=kv2_refs, kv2_tokenizer_kwargs=kv2_tok_kw, kv2_keyword_types_at_root=kv2_kw_roots, kv2_keyword_roots_line=kv2_kw_roots_line, kv2_stub_keeps_uuid=kv2_stub, kv2_stub_line=kv2_stub_line, kv1=kv1,
+                attr_count={'len': cnt['count'].ln, 'has': cnt['count'].has, 'has_key': cnt['count'].has_key, 'const': cnt['count'].const,
+                            'kept': cnt['count'].kept, 'kept_filter': cnt['count'].kept_filter, 'write_filter': cnt['write_filter'],
+                            'collect_filter': cnt['collect_filter'], 'line': cnt['line'], 'name_getter': ngt},
+                parse_keys=pkeys, kv2_members=kv2m,
                 digests={f: ast_digest(_func(tree, 'Element', f)) for f in
                          ('parse_bin', 'export_binary', 'export_kv2', '_export_kv2', 'parse_kv2', '_parse_kv2_element')})
+
+    def mfilter(f):
+        if f is None or f[0] == 'FNothing':
+            return 'FNothing'
+        return f'({f[0]} {_coq_str(f[1])})'
 
     def encfun(d):
         return 'fun s => match s with ' + ' | '.join(f'{s} => {d[s][0]}' for s in SITES) + ' end'
@@ -993,7 +1889,7 @@ def translate() -> tuple[str, dict]:
     umfun = lambda d: ('fun m => match m with UAscii => ' + b(d['ascii']) + ' | UFormat => ' + b(d['format']) + ' | USilent => ' + b(d['silent']) + ' end')
     lines = [
         '(* GENERATED by translate/c14_dmx.py from /repo/src/srctools/dmx.py. Do not edit. *)',
-        'From Coq Require Import NArith ZArith List String.', 'From SV Require Import Num.Dec6 Fmt.DmxCodes Fmt.DmxKv1 Fmt.DmxScalar Fmt.DmxKv2 Fmt.DmxValText Fmt.DmxHeader.', 'Import ListNotations.',
+        'From Coq Require Import NArith ZArith List String.', 'From SV Require Import Num.Dec6 Fmt.DmxCodes Fmt.DmxBin Fmt.DmxMembers Fmt.DmxMembersParse Fmt.DmxMembersKv2 Fmt.DmxKv1 Fmt.DmxKv1Sel Fmt.DmxScalar Fmt.DmxKv2 Fmt.DmxValText Fmt.DmxHeader.', 'Import ListNotations.',
         'Open Scope N_scope.',
         'Definition gen_cfg : dmxcfg := {|',
         '  code_table := [' + '; '.join(f'({c}, {i})' for c, i, _ in table) + '];',
@@ -1055,6 +1951,22 @@ def translate() -> tuple[str, dict]:
         'Definition gen_kv2_tok_kwargs : list (string * bool) := [' + '; '.join(f'("{k}"%string, {b(v)})' for k, v in kv2_tok_kw) + '].',
         '(* the values of the ValueType enum (attribute type keywords of KeyValues2) *)',
         'Definition gen_vtnames : list (list N) := [' + '; '.join(_coq_str(k) for k in VT) + '].',
+        '(* export_binary: the attribute count written per element, the skip tests of the two loops over the members, Element.name *)',
+        'Definition gen_cnt : cntcfg := {|',
+        f'  cc_len := ({cnt["count"].ln})%Z; cc_has := ({cnt["count"].has})%Z; cc_has_key := {_coq_str(cnt["count"].has_key or "")};',
+        f'  cc_const := ({cnt["count"].const})%Z; cc_kept := ({cnt["count"].kept})%Z; cc_kept_filter := {mfilter(cnt["count"].kept_filter)};',
+        f'  cc_write_filter := {mfilter(cnt["write_filter"])}; cc_collect_filter := {mfilter(cnt["collect_filter"])};',
+        f'  cc_name_key := {_coq_str(ngt["key"])}; cc_name_default := {_coq_str(ngt["default"])}; cc_len_is_members := {b(ngt["len_is_members"])};',
+        '|}.',
+        '(* the readers: under which key an attribute record is stored in the dict of the element; the member Element() starts with *)',
+        f'Definition gen_parse : parsecfg := {{| pk_bin := {pkeys["bin"][0]}; pk_kv2_attr := {pkeys["kv2_attr"][0]}; pk_kv2_inline := {pkeys["kv2_inline"][0]}; '
+        f'pk_init_key := {_coq_str(pkeys["init_key"])}; pk_init_name := {_coq_str(pkeys["init_name"])} |}}.',
+        '(* _export_kv2: the skip test of the loop over the members; _parse_kv2_element: the test in front of the name setter *)',
+        f'Definition gen_kv2_skip : mfilter := {mfilter(kv2m["skip"])}.',
+        f'Definition gen_kv2_name_test : nametest := {kv2m["name_test"]}.',
+        '(* from_kv1: which name of a leaf (casefolded .name / case-preserved .real_name) the reserved-name test and the duplicate test read *)',
+        f'Definition gen_kv1_reserved_sel : namesel := {kv1["reserved_sel"]}.',
+        f'Definition gen_kv1_dup_sel : namesel := {kv1["dup_sel"]}.',
         '(* KeyValues1 bridge constants *)',
         'Definition gen_kv1 : kv1cfg := {|',
         f'  t_block := {_coq_str(kv1["t_block"])};',
